@@ -192,7 +192,7 @@ def close (s : St) (who : Who) (slot : Nat) : Option St :=
   | none => none
   | some act =>
     let allowed := who = .user act.owner ∨ (who = .keeper ∧ act.state ≠ 0)
-    if ¬ allowed then none else
+    if ¬ allowed ∨ act.owner ≥ NUSERS then none else
     let usr := s.users act.owner
     some (setAct (setUser s act.owner
       ({ usr with long := usr.long + act.escLong, short := usr.short + act.escShort, glv := usr.glv + act.escGlv }.addMt act.m act.escMt))
